@@ -52,7 +52,7 @@ def parseOp (vars : List Nat) (x : Sx) : Option Op :=
   | .list [.atom "wod", v] => do some (.wod (← var v))
   | .list [.atom "clone", v, r] => do some (.clone (← var v) (← r.toBool?))
   | .list [.atom "copy", v, r, ro] => do some (.copy (← var v) (← r.toBool?) (← ro.toBool?))
-  | .list [.atom "neg", v] => do some (.neg (← var v))
+  | .list [.atom "neg", v, u, d] => do some (.neg (← var v) (← u.toBool?) (← d.toBool?))
   | .list [.atom "pickle", v, mc, dmc] => do
     let ps ← (← dmc.toList?).mapM fun p => match p with
       | .list [k, c] => do some ((← k.toNat?), (← parseMC c))
@@ -109,19 +109,34 @@ def resSx : Res → Sx
   | .err .type => .atom "TypeError"
   | .err .bad => .atom "bad-handle"
 
-def runHist : State → List Nat → List Sx → List Sx → List Sx
-  | _, _, [], acc => acc.reverse
-  | s, vars, x :: xs, acc =>
+/-- run the model ops one request step stands for (`(seq op1 op2 ..)`: e.g. a constant of the library = build + freeze);
+    the step's result is that of the first op -/
+def runOps (s : State) (vars : List Nat) : List Sx → Option (State × List Nat × Option Res)
+  | [] => some (s, vars, none)
+  | x :: xs =>
     match parseOp vars x with
-    | none => (err "op" :: acc).reverse
+    | none => none
     | some op =>
       let (s', r) := step s op
       let vars' := match r with
         | .obj i => vars ++ [i]
         | _ => vars
+      match runOps s' vars' xs with
+      | some (s'', vars'', _) => some (s'', vars'', some r)
+      | none => none
+
+def runHist : State → List Nat → List Sx → List Sx → List Sx
+  | _, _, [], acc => acc.reverse
+  | s, vars, x :: xs, acc =>
+    let ops : List Sx := match x with
+      | .list (.atom "seq" :: l) => l
+      | y => [y]
+    match runOps s vars ops with
+    | some (s', vars', some r) =>
       let line := Sx.list [resSx r, .list (vars'.map (varObs s s')),
                             .list (s'.user.map fun a => Sx.ofBool (s'.arrW a))]
       runHist s' vars' xs (line :: acc)
+    | _ => (err "op" :: acc).reverse
 
 def handle : List Sx → Sx
   | [.atom "hist", .list ops] => .list (runHist State.empty [] ops [])
